@@ -40,6 +40,12 @@ def struct_name(fields):
     return "S" + hashlib.sha1(json.dumps(fields, sort_keys=True).encode()).hexdigest()[:10]
 
 
+def tname(t):
+    """the class name the library will give the type (union membership is by name)"""
+    if t["k"] == "struct": return t["name"]
+    return json.dumps(t, sort_keys=True)
+
+
 def gen_type(rng, depth, allow_refs=False, top=True):
     """random type expression; top-level is always a compound (scalars have no handle)"""
     r = rng.random()
@@ -49,6 +55,19 @@ def gen_type(rng, depth, allow_refs=False, top=True):
         return {"k": "scalar", "name": rng.choice(SC)}
     if r < 0.42:
         return {"k": "string"}
+    if allow_refs and not top and r < 0.54:
+        # references point at compounds (structs / arrays)
+        tgt = gen_type(rng, max(1, depth - 1), False, True)
+        while tgt["k"] not in ("struct", "array"):
+            tgt = gen_type(rng, max(1, depth - 1), False, True)
+        if rng.random() < 0.6:
+            return {"k": "ref", "target": tgt}
+        ms = [tgt]
+        m2 = gen_type(rng, max(1, depth - 1), False, True)
+        if m2["k"] == "struct" and m2 != tgt and tname(m2) != tname(tgt):
+            ms.append(m2)
+        ms = [m for m in ms if m["k"] in ("struct", "array")]
+        return {"k": "union", "name": "U" + hashlib.sha1(json.dumps(ms, sort_keys=True).encode()).hexdigest()[:8], "members": ms}
     if r < 0.72:
         nf = rng.choice([0, 1, 2, 2, 3, 4]) if not top else rng.choice([1, 2, 3, 4])
         fields = [["f%d" % i, gen_type(rng, depth - 1, allow_refs, False)] for i in range(nf)]
